@@ -281,6 +281,15 @@ func checkC12(c c12Case) verdict {
 			keptURLs = append(keptURLs, keptURL{u: u, before: *u, text: u.String(), what: what})
 		}
 	}
+	// parameter structs of earlier steps: a library that keeps the pointer (a pool it returns the caller's struct to) writes
+	// into it during a LATER call
+	type keptParam struct {
+		p    *otp.Param
+		was  otp.Param
+		step int
+		op   string
+	}
+	var keptParams []keptParam
 	labels := []string{}
 	nt := false
 	for i, st := range c.Steps {
@@ -296,6 +305,7 @@ func checkC12(c c12Case) verdict {
 		if !st.NilP {
 			param = &otp.Param{Digits: otp.Digits(st.Digits), Algorithm: otp.Algorithm(st.Algo), Period: uint(st.Period), Skew: uint(st.Skew)}
 			paramCopy = *param
+			keptParams = append(keptParams, keptParam{param, paramCopy, i, st.Op})
 		} else {
 			nt = true
 		}
@@ -669,6 +679,11 @@ func checkC12(c c12Case) verdict {
 		for _, r := range kept {
 			if r.got != r.copy {
 				return bad(true, labels, "a retained %s changed after step %d: %q -> %q", r.what, i, r.copy, r.got)
+			}
+		}
+		for _, k := range keptParams {
+			if *k.p != k.was {
+				return bad(true, labels, "the *Param passed to %s in step %d changed during step %d (%s): %+v -> %+v", k.op, k.step, i, st.Op, k.was, *k.p)
 			}
 		}
 		for _, k := range keptURLs {
